@@ -4,6 +4,7 @@
 mod util;
 mod m_canon;
 mod m_depfile;
+mod m_render;
 
 use util::Ctx;
 
@@ -24,6 +25,7 @@ fn main() {
     match mode {
         "canon" => m_canon::run(&mut ctx),
         "depfile" => m_depfile::run(&mut ctx),
+        "render" => m_render::run(&mut ctx),
         _ => {
             eprintln!("unknown mode {mode}");
             std::process::exit(2);
